@@ -285,14 +285,19 @@ def add_region_and_context_region(
 ):
     if code:
         first_line_number, snippet_lines = parse_code(code)
-        snippet_line = snippet_lines[line_range[0] - first_line_number]
-        snippet = om.ArtifactContent(text=snippet_line)
+        # the excerpt is centred on the reported line, which for a long
+        # multi-line call can lie far below the first line of the range
+        index = line_range[0] - first_line_number
+        if 0 <= index < len(snippet_lines):
+            snippet = om.ArtifactContent(text=snippet_lines[index])
+        else:
+            snippet = None
     else:
         snippet = None
 
     physical_location.region = om.Region(
         start_line=line_range[0],
-        end_line=line_range[1] if len(line_range) > 1 else line_range[0],
+        end_line=line_range[-1],
         start_column=col_offset + 1,
         end_column=end_col_offset + 1,
         snippet=snippet,
